@@ -6,7 +6,7 @@ open Catch Py.Gen
 
     <kind> <cfgs> <env> <automaton> <ops>
 
-    kind  fn | with | gen | coro | agen
+    kind  fn | with | awith | gen | coro | agen
     cfgs  `;`-joined, innermost first;  cfg = M:X:R:L:D:O   (M, X bit strings indexed by class,
           R 0/1, L level no, D default, O = n | k | r<cls>.<id>)
     env   <probes>@<bits>:<cls>.<id>    probes = `-` or `,`-joined  cfg~(r<v> | e<cls>.<id>)
@@ -143,14 +143,16 @@ def step (line : String) : String :=
     match (cfgs.splitOn ";").mapM parseCfg, parseEnv env, parseTable auto, parseOps ops with
     | some cfgs, some env, some tbl, some ops =>
       let a := tableAuto tbl
-      if kind == "fn" || kind == "with" then
+      if kind == "fn" || kind == "with" || kind == "awith" then
         let body : G → CallRes × G := fun g =>
           match a.step 0 (.send 0) g with
           | (.raise e, _, g') => (.raise e, g')
           | (.ret v, _, g') => (.ret v, g')
           | (.yield v, _, g') => (.ret v, g')
         let wrapped := cfgs.foldl (fun b c =>
-          if kind == "fn" then callWrapped (Catch.exit env) c b else withBlock (Catch.exit env) c b) body
+          if kind == "fn" then callWrapped (Catch.exit env) c b
+          else if kind == "with" then withBlock (Catch.exit env) c b
+          else asyncWithBlock (Catch.exit env) c b) body
         match wrapped g0, body g0 with
         | (r, g), (u, _) => answer [showCall r] g [showCall u]
       else if kind == "gen" || kind == "coro" then
